@@ -15,7 +15,9 @@ and must print the model's observation byte for byte).  They quantify over
 The statements are the executable Spec predicates of Spec/C18 (the very functions the driver evaluates on the real
 registry's observations) plus, for the configuration, the unbounded ∀-fields form.
 -/
-import Pandora.Proofs.C18Run
+import Pandora.Proofs.C18Ext
+import Pandora.Proofs.C18Eng
+import Pandora.Bridge.Plugin
 
 namespace Pandora.Props.C18
 open Pandora.Model.C18 Pandora.Spec.C18 Pandora.Proofs.C18
@@ -310,6 +312,96 @@ theorem C18_once_counts (inp : Input) (obs : Obs) (h : run inp = some obs) (ha :
   · rw [hsum isCtor 0 (fun s hs => (hper s hs).2.2.1)]; simp
   · rw [hsum isFact 1 (fun s hs => (hper s hs).2.2.2), hlen]; simp
 
+/-- **fresh, per call — shared default configuration included**: whenever the requested form must configure per
+product (`New`, or a factory made from a component constructor that takes a configuration), EVERY call invokes the
+default-config function once (if registered), fillConf once on what it returned and, unless fillConf failed, the
+constructor once on that very configuration — also when the registered default-config function hands out one and
+the same pointer each time.  (`C18_fresh` adds that the configurations are pairwise distinct when the function does
+not do that.)  `NewFactory` itself invokes no user code. -/
+theorem C18_percall (inp : Input) (obs : Obs) (h : run inp = some obs) (ha : percallApplies inp = true) :
+    percallOk inp obs = true :=
+  percall_run h ha
+
+/-- **structure, every shape**: for every shape, requested form, world and k, every operation consists of exactly the
+invocations of user code — in exactly the order — that the constructor shape prescribes:
+`New` = [default-config] [fillConf] constructor [registered factory];
+`NewFactory` for a component constructor = nothing (fillConf once on the empty struct when the constructor takes
+no config), each call = [default-config] [fillConf] constructor when it takes a config and the constructor alone when it
+does not;
+`NewFactory` for a factory constructor = [default-config] [fillConf] constructor, each call = the registered factory
+alone; a failing fillConf / constructor ends the operation.  This decides the invocation counts of the shapes
+`C18_fresh` / `C18_once` do not speak about (no-config constructors, factory constructors through `New`). -/
+theorem C18_struct (inp : Input) (obs : Obs) (h : run inp = some obs) : structOk inp obs = true :=
+  struct_run h
+
+/-- `C18_struct` in numbers for a component constructor WITHOUT a config requested as a factory: creation invokes
+fillConf at most once (on the empty struct) and nothing else, the k calls are exactly k constructor invocations -/
+theorem C18_struct_plain (inp : Input) (obs : Obs) (h : run inp = some obs)
+    (hc : inp.sh.cfg = .none) (hfa : inp.sh.factory = false) (hform : inp.form ≠ .component)
+    (c : Step) (calls : List Step) (hsteps : obs.steps = c :: calls) :
+    c.evs.map kindOf = (if inp.w.hasFill then [K.f] else []) ∧
+    ∀ s ∈ calls, s.evs.map kindOf = [K.c] := by
+  have hs := struct_run h
+  have hcalls : callsOf inp obs = calls := by
+    cases hf : inp.form with
+    | component => exact absurd hf hform
+    | facNoErr | facErr => simp [callsOf, hsteps]
+  have hne : (inp.form == Form.component) = false := by simp [hform]
+  simp only [structOk, structOkBy, hcalls, hsteps, List.head?_cons, hne, Bool.false_or, Bool.and_eq_true,
+    List.all_eq_true, beq_iff_eq] at hs
+  obtain ⟨⟨h1, h2⟩, _⟩ := hs
+  refine ⟨?_, fun s hs => ?_⟩
+  · rw [h1]; simp [createKindsBy, hfa, hc]
+  · rw [h2 s hs]; simp [callKindsBy, reconfigures, hne, hfa, hc]
+
+/-! ### registration: which Go types `Register` accepts (expectations regenerated from core/plugin on every run) -/
+
+open Pandora.Model.C18Ty in
+/-- **supported ways of registering, as Go types**: for EVERY type of the registered constructor and of the optional
+default-config function (an unbounded space of Go types: any nesting of funcs, pointers, named types), the
+expectations `Register` checks — `newImplConstructor`, `newPluginConstructor`, `newFactoryConstructor`,
+`expectPluginConstructor`, `newDefaultConfigContainer`, regenerated from the source into Gen/Plugin.lean — all hold iff
+the constructor is `func([Conf | *Conf]) (Impl | func() (Impl [, error]) [, error])` with `Impl` implementing the plugin
+interface, and the default-config function is absent or `func() <the constructor's config type>` -/
+theorem C18_register_types (p t : Ty) (d : Option Ty) :
+    Pandora.Bridge.Plugin.accepts p t d = Pandora.Model.C18Reg.supported p t d :=
+  Pandora.Bridge.Plugin.accepts_eq_supported p t d
+
+/-- every shape of the model, given its Go types (as the driver builds them with reflect.FuncOf), is accepted by the
+regenerated expectations iff the model says `Register` accepts it, and is taken as a factory constructor iff it is a
+factory shape -/
+theorem C18_register_shapes (sh : Shape) :
+    Pandora.Bridge.Plugin.accepts Pandora.Model.C18Reg.plugT (Pandora.Model.C18Reg.ctorTy sh)
+      (Pandora.Model.C18Reg.dfltTy sh) = registerOk sh ∧
+    Pandora.Gen.Plugin.isFactoryConstructor Pandora.Model.C18Reg.plugT (Pandora.Model.C18Reg.ctorTy sh) = sh.factory :=
+  ⟨Pandora.Bridge.Plugin.accepts_shape sh, Pandora.Bridge.Plugin.isFactoryConstructor_shape sh⟩
+
+/-! ### the engine's use of a gun factory -/
+
+open Pandora.Model.C18Engine in
+/-- **engine**: a pool that starts `inst` instances calls its gun factory — a `func() (core.Gun, error)` made by
+`NewFactory` — once to warm up and once per instance, until the first error.  For every shape, world (any fault plan)
+and `inst`: the run is a registry run of form `func() (Plugin, error)` with at most `inst + 1` calls; at most that
+many guns are built; every gun was built from the registered defaults overlaid by the user's settings; and when the
+registered gun constructor is a component constructor with a config (and no shared default pointer) the guns hold
+pairwise distinct configuration objects (`cells` = number of pointer-holding guns) and at the end every one of them still
+reads its own serial number through its pointer (`own = cells`): instances never share configuration state. -/
+theorem C18_engine (inp : Input) (inst : Nat) (per : Bool) (eo : EngineObs) (h : engineRun inp inst per = some eo) :
+    ∃ obs, run (gunInput inp inst) = some obs ∧
+      (gunInput inp inst).form = .facErr ∧ (gunInput inp inst).k ≤ inst + 1 ∧
+      eo.guns = (Pandora.Spec.C18.products obs.steps).length ∧ eo.guns ≤ inst + 1 ∧
+      (inp.sh.cfg ≠ .none → ∀ t ∈ eo.seen,
+        t = ((expected inp.sh inp.w).get 1, (expected inp.sh inp.w).get 2, (expected inp.sh inp.w).get 3)) ∧
+      (freshApplies (gunInput inp inst) = true →
+        eo.cells = ((Pandora.Spec.C18.products obs.steps).filterMap (·.cell)).length ∧ eo.own = eo.cells) := by
+  obtain ⟨obs, h1, h2, h3, h4, h5⟩ := engine_run h
+    (fun obs ho => C18_errors _ obs ho)
+    (fun obs ho p hp hc f hf => (C18_config _ obs ho p hp).2 hc f hf)
+    (fun obs ho ha => C18_fresh _ obs ho ha)
+  have hk := gunK_le inp inst
+  have hp : poolGunCalls inst = inst + 1 := by simp [poolGunCalls, warmupGunCalls, gunCallsPerInstance, Nat.add_comm]
+  exact ⟨obs, h1, rfl, by simp only [gunInput]; omega, h2, by omega, h4, h5⟩
+
 /-- the whole Spec verdict the driver computes is `ok` on the model's own observation, for every input -/
 theorem C18_spec (inp : Input) (fields : List Nat) : judge inp (run inp) fields = "ok" := by
   cases hrun : run inp with
@@ -325,6 +417,11 @@ theorem C18_spec (inp : Input) (fields : List Nat) : judge inp (run inp) fields 
       exact this.symm
     simp only [judge, hreg, Bool.not_true, Bool.false_eq_true, if_false, C18_errors inp obs hrun,
       C18_config_spec inp obs fields hrun]
+    have hp : (percallApplies inp && !percallOk inp obs) = false := by
+      by_cases hp : percallApplies inp = true
+      · simp [C18_percall inp obs hrun hp]
+      · simp [hp]
+    simp only [hp, C18_struct inp obs hrun, Bool.not_true, Bool.false_eq_true, if_false]
     by_cases hf : freshApplies inp = true
     · by_cases ho : onceApplies inp = true
       · simp [hf, ho, C18_fresh inp obs hrun hf, C18_once inp obs hrun ho]
@@ -382,5 +479,59 @@ example : (run { exOnce with w := exWorld (fun _ => true) noFault noFault }).map
 component-constructor factory all hold that pointer (identity 0) -/
 example : (run { exFresh with sh := { exFresh.sh with dflt := .shared } }).map
     (fun o => (products o.steps).map (·.cell)) = some [some 0, some 0, some 0] := by decide
+
+/-- `C18_percall` is not vacuous for the shared default configuration: the hypotheses hold and every one of the
+three calls shows default-config, fillConf and constructor on identity 0 -/
+example : (run { exFresh with sh := { exFresh.sh with dflt := .shared } }).isSome = true ∧
+    percallApplies { exFresh with sh := { exFresh.sh with dflt := .shared } } = true ∧
+    freshApplies { exFresh with sh := { exFresh.sh with dflt := .shared } } = false := by decide
+example : (run { exFresh with sh := { exFresh.sh with dflt := .shared } }).map
+    (fun o => (callsOf exFresh o).map fun s => (s.evs.map kindOf, fillAddr? s, ctorConf? s)) =
+    some [([K.d, K.f, K.c], some 0, some 0), ([K.d, K.f, K.c], some 0, some 0), ([K.d, K.f, K.c], some 0, some 0)] := by
+  decide
+
+/-- `func() (Plugin, error)` without config requested as `func() Plugin` (wrapped) and as `func() (Plugin, error)`
+(handed out as is): fillConf once on the empty struct at creation, then one constructor invocation per call -/
+def exPlain (form : Form) : Input :=
+  { sh := { factory := false, cfg := .none, ctorErr := true, factErr := false, iface := true, dflt := .absent },
+    form := form, w := exWorld noFault noFault noFault, k := 3 }
+
+example : (run (exPlain .facNoErr)).map (fun o => o.steps.map fun s => s.evs.map kindOf) =
+    some [[K.f], [K.c], [K.c], [K.c]] := by decide
+example : (run (exPlain .facErr)).map (fun o => o.steps.map fun s => s.evs.map kindOf) =
+    some [[K.f], [K.c], [K.c], [K.c]] := by decide
+/-- a factory constructor through `New`: configuration, constructor and the factory it returns once per `New` -/
+example : (run { exOnce with form := .component }).map (fun o => o.steps.map fun s => s.evs.map kindOf) =
+    some [[K.d, K.f, K.c, K.r], [K.d, K.f, K.c, K.r], [K.d, K.f, K.c, K.r]] := by decide
+
+/-! registration types: a supported and three unsupported constructor types -/
+section
+open Pandora.Model.C18Ty Pandora.Model.C18Reg Pandora.Bridge.Plugin
+/-- `func(*Conf) (func() (Plugin, error), error)` with `func() *Conf` -/
+example : accepts plugT (.func (.cons pconfT .nil) (.cons (formTy 2) (.cons Ty.error .nil))) (some (Ty.funcOf0 pconfT)) = true := by
+  decide
+/-- two arguments / a config that is neither a struct nor a pointer to one / a product that does not implement the
+plugin interface / `func() Conf` for a `*Conf` constructor -/
+example : accepts plugT (.func (.cons confT (.cons confT .nil)) (.cons implT .nil)) none = false ∧
+    accepts plugT (.func (.cons (.ptr pconfT []) .nil) (.cons implT .nil)) none = false ∧
+    accepts plugT (.func .nil (.cons pconfT .nil)) none = false ∧
+    accepts plugT (.func (.cons pconfT .nil) (.cons implT .nil)) (some (Ty.funcOf0 confT)) = false := by decide
+end
+
+/-! the engine: 3 instances = 4 gun factory calls -/
+section
+open Pandora.Model.C18Engine
+/-- `func(*Conf) (*comp, error)` registered as gun, no faults: 4 guns on 4 distinct configs, each 5/9/7, all read their
+own serial at the end, the warm-up gun is bound to no instance; a shared rps schedule is built once -/
+example : engineRun exFresh 3 false =
+    some { res := "ok", guns := 4, cells := 4, dflts := 4, ctors := 4, facts := 0, seen := [(5, 9, 7)], own := 4,
+           binds := [0, 1, 1, 1], sched := 1 } := by decide
+/-- the first instance's gun constructor fails: `Run` returns that error after 2 factory calls -/
+example : (engineRun (exErr .facErr) 3 true).map (fun e => (e.res, e.guns, e.ctors, e.sched)) =
+    some ("err.ctor1", 1, 2, 1) := by decide
+/-- a factory constructor registered as gun: configured once, its products share that configuration (`cells = 1`) -/
+example : (engineRun exOnce 2 true).map (fun e => (e.res, e.guns, e.cells, e.own)) = some ("ok", 3, 1, 1) ∧
+    (engineRun exOnce 2 true).map (fun e => (e.ctors, e.facts, e.sched)) = some (1, 3, 2) := by decide
+end
 
 end Pandora.Props.C18
